@@ -139,6 +139,35 @@ let handle_md = function
   | [ id; data ] -> id ^ " " ^ if msgpack_matches utf8_valid (bytes_of_hex data) then "match" else "nomatch"
   | _ -> failwith "bad MD line"
 
+
+(* ---------- U*: YAML re-encoder ----------
+   UD <id> <hex>                         Encoding::detect -> index
+   UR <id> <N0..N4|F> <hex> <sizes>      Encoder::new(enc)/from_reader, read with the given buffer sizes *)
+
+let enc_index = function Utf8 -> 0 | Utf16Big -> 1 | Utf32Big -> 2 | Utf16Little -> 3 | Utf32Little -> 4
+let enc_of_index = function 0 -> Utf8 | 1 -> Utf16Big | 2 -> Utf32Big | 3 -> Utf16Little | _ -> Utf32Little
+
+let handle_ud = function
+  | [ id; data ] -> Printf.sprintf "%s %d" id (enc_index (detect (bytes_of_hex data)))
+  | _ -> failwith "bad UD line"
+
+let show_rend = function
+  | Exhausted -> "exhausted"
+  | AtEof -> "eof"
+  | Failed EUnexpectedEof -> "ueof"
+  | Failed (EInvalid (bits, u, pos)) -> Printf.sprintf "invalid:%d:%x:%d" (int_of_nat bits) (int_of_n u) (int_of_n pos)
+
+let handle_ur = function
+  | [ id; mode; data; sizes ] ->
+      let inp = bytes_of_hex data in
+      let e =
+        if mode = "F" then encoder_from_reader inp
+        else encoder_new inp (enc_of_index (int_of_string (String.sub mode 1 1)))
+      in
+      let out, fin = read_seq e (List.map nat_of_int (ints_of sizes)) in
+      Printf.sprintf "%s %s %s" id (hex_of_bytes out) (show_rend fin)
+  | _ -> failwith "bad UR line"
+
 let () =
   try
     while true do
@@ -149,6 +178,8 @@ let () =
           match f with
           | "H" :: rest -> handle_h rest
           | "MS" :: rest -> handle_ms rest
+          | "UD" :: rest -> handle_ud rest
+          | "UR" :: rest -> handle_ur rest
           | "MT" :: rest -> handle_mt rest
           | "MD" :: rest -> handle_md rest
           | k :: _ -> failwith ("unknown case kind " ^ k)
